@@ -559,13 +559,17 @@ for m in ["crc", "cobs"]:
       fns=["postcard::ser::flavors::Flavor::try_extend (default or override) of " + ("crc::CrcModifier" if m == "crc" else "Cobs")],
       note="modifier flavour: ONE try_extend(block) == byte-wise try_push of the block, output and checksum/frame identical; CRC: concrete block lengths 0, 1, 9, 17, 33, 65, 72 (just past every power-of-two chunk size), Cobs: every length 0..=72")
 
+# ---------------------------------------------------------------- varint round trip (spec level, all values of each width)
+for w in ["u16", "u32", "u64", "u128"]:
+    V("C01.L.varint.roundtrip_" + w, "devarint", "lemma_varint_roundtrip_" + w, {"C01": "D", "C03": "S"}, kind="L",
+      note="dec_" + w + "(enc(n) ++ rest) == Ok(n, |enc(n)|) for EVERY n: the bit-form decoder the real reader is proved to compute (C03.V.de.take_*) inverts the arithmetic encoder the real writer is proved to emit (C02.V.varint.*); induction over the bytes, bit-vector step lemmas per position")
 # ---------------------------------------------------------------- wire-model lemmas (spec level): nesting to any depth
 V("C01.L.model.roundtrip", "wiremodel", "lemma_model_roundtrip", {"C01": "D"}, kind="L",
-  note="for every well-typed value of the serde data model nested to ANY depth (leaf kinds abstract; option, seq/map, tuple/struct, enum variants): dec(shape, enc(v) ++ rest) == (v, rest), given the per-kind leaf round trips (C01.K.kind.*) and the varint(usize/u32) round trip as hypotheses")
+  note="for every well-typed value of the serde data model nested to ANY depth (leaf kinds abstract; option, seq/map, tuple/struct, enum variants): dec(shape, enc(v) ++ rest) == (v, rest), given the per-kind leaf round trips (C01.K.kind.*) as the one hypothesis; count prefixes and variant indices are concrete (enc / dec_u64 / dec_u32) and use the PROVED varint round trip")
 V("C12.L.model.size_bound", "wiremodel", "lemma_model_size_bound", {"C12": "D"}, kind="L",
-  note="for every value of a fixed-size shape nested to any depth: |enc(v)| <= max_size(shape) with max_size the MaxSize formulas (option +1, tuple/struct sum, enum discriminant + max), given the per-kind leaf bounds")
+  note="for every value of a fixed-size shape nested to any depth: |enc(v)| <= max_size(shape) with max_size the MaxSize formulas (option +1, tuple/struct sum, enum discriminant + max), given the per-kind leaf bounds; the discriminant bound is the proved monotonicity of |enc|")
 ASSUMPTIONS["C01"] = [a for a in ASSUMPTIONS["C01"] if not a.startswith("nesting to arbitrary depth")] + [
-    "nesting to arbitrary depth: spec-level lemma C01.L.model.roundtrip over an abstract wire model whose three hypotheses (hyp_leaf_roundtrip, hyp_len_roundtrip - external_body proof fns) are what the per-kind obligations discharge on the real code; that serde drives postcard's methods according to that model is A-serde"]
+    "nesting to arbitrary depth: spec-level lemma C01.L.model.roundtrip over an abstract wire model whose one hypothesis (hyp_leaf_roundtrip - an external_body proof fn over the uninterpreted scalar codecs) is what the per-kind obligations C01.K.kind.* discharge on the real code; length prefixes and variant indices are NOT hypothesised: enc / dec_u64 / dec_u32 with the proved lemmas C01.L.varint.roundtrip_*; that serde drives postcard's methods according to that model is A-serde"]
 
 for o in OBLIGATIONS:
     for w in ["u16", "u32", "u64"]:
